@@ -45,6 +45,16 @@ def run_property(prop, tier, seed, replay):
         if "trace" not in body:
             print("replay names a proof obligation / correspondence, no input: %s" % body.get("what"))
             return 1
+        if body.get("profile") == "slow":
+            rep = {"errors": [], "cases": 0, "events": 0, "distribution": {}, "samples": [], "suites": [], "trace_files": []}
+            _, mon = run_conc_suites(prop, {"slow": True}, "quick", seed, work, rep)
+            if not mon and not rep["errors"]:
+                print("replay: every response arrived complete under the slow reader")
+                return 0
+            for m in mon[:3]:
+                print("replay: %s" % m["trace"][-1])
+            print("VIOLATION property=%s replay=%s" % (prop, replay))
+            return 1
         if body.get("profile") in ("limit", "cfg"):
             # timed lifecycles / configurations are re-generated from the recorded seed
             rep = {"errors": [], "cases": 0, "events": 0, "distribution": {}, "samples": [], "suites": [],
@@ -95,7 +105,7 @@ def run_property(prop, tier, seed, replay):
         obligations += 1  # the seq correspondence
         diffs = run_seq_suites(prop, cfg, tier, seed, work, report)
         monitor = []
-        if cfg.get("conc") or cfg.get("limit") or cfg.get("sweep") or cfg.get("cfg") or cfg.get("pol"):
+        if cfg.get("conc") or cfg.get("limit") or cfg.get("sweep") or cfg.get("cfg") or cfg.get("pol") or cfg.get("slow"):
             obligations += 1
             cd, monitor = run_conc_suites(prop, cfg, tier, seed, work, report)
             diffs += cd
@@ -146,7 +156,8 @@ def run_property(prop, tier, seed, replay):
             continue
         body = {"what": ("%s: outcome of case %s is not that of any one-at-a-time order (class %s)" % (m["suite"], m["case"], cls))
                         if m["kind"] == "NONLIN" else ("%s: %s" % (m["suite"], " ".join([m["case"], cls]))),
-                "profile": "pol" if m["suite"] == "conc_pol" else "conc", "trace": m["trace"], "theorems": names}
+                "profile": "pol" if m["suite"] == "conc_pol" else ("slow" if m["suite"] == "slow_reader" else "conc"),
+                "trace": m["trace"], "theorems": names}
         key = json.dumps(m["trace"])
         if key in seen or len(violations) >= 5:
             continue
